@@ -203,6 +203,27 @@ def ev(e, env):
     raise KeyError(k)
 
 
+def transform(e, rnd, ren):
+    """a semantically equivalent expression: identifiers renamed through `ren`, arguments of the commutative operators reordered"""
+    k = e[0]
+    if k == "id":
+        return ("id", [ren.get(e[1][0], e[1][0])] + list(e[1][1:]))
+    if k in ("num", "bool"):
+        return e
+    out = [k]
+    for x in e[1:]:
+        if isinstance(x, tuple):
+            out.append(transform(x, rnd, ren))
+        elif isinstance(x, list):
+            ys = [transform(y, rnd, ren) if isinstance(y, tuple) else y for y in x]
+            if k in ("and", "or", "add", "mul") and rnd is not None:
+                rnd.shuffle(ys)
+            out.append(ys)
+        else:
+            out.append(x)
+    return tuple(out)
+
+
 def strip_nn(e):
     while e[0] == "not" and e[1][0] == "not":
         e = e[1][1]
